@@ -143,6 +143,8 @@ def c12(c):
 def c13(c):
     cfgs = ["thorough", "thorough_auto"] if c.tier == "thorough" else ["quick", "quick_auto"]
     vsign_graph(c, "C13", "model state graph {path, projection, every alphabet edge} replayed into a real VirtualSign", cfgs)
+    if c.tier == "thorough":
+        sign_abs_inductive(c)
     shards = 16 if c.tier == "thorough" else 8
     files, n, out = vlib.record("C13", c.tier, c.seed, shards)
     c.details["recorder"] = out.strip().splitlines()[0][:500]
@@ -152,8 +154,9 @@ def c13(c):
                       "observation through state(), sign_type(), pages() and the replies only; pending bytes, counter, width, height are inferred by TLC"]
     return c.finish("model_checking",
                     "M: invariants (stored pages complete, buffer only while receiving, counter zero outside transfers) and the documented per-step "
-                    "behaviour on every reachable state of the bounded model, both flip styles; G: one implementation test per model transition; "
-                    "V: breadth-first search over the real implementation's own Hash/Eq state with every alphabet message probed at every node, plus "
+                    "behaviour on every reachable state of the bounded model, both flip styles; every model step is a step of the size abstraction "
+                    "SignAbs (refinement, TLC action property), whose invariants Apalache shows inductive for unbounded counters and lengths (thorough tier); "
+                    "G: one implementation test per model transition; V: breadth-first search over the real implementation's own Hash/Eq state with every alphabet message probed at every node, plus "
                     "random walks and directed transfers on real sign sizes, every event validated by TLC against VirtualSign!Step; "
                     "distinct = model transitions + implementation transitions")
 
@@ -165,6 +168,12 @@ def c14(c):
         c.mc("MC_Bus", "MC_Bus_%s.cfg" % c.tier, workers=10, timeout=3000, gen_tag="GEN", gen_sink=sink, coverage=False)
     c.replay_vectors("C14", path, "every state of the 2-sign model reached on a real VirtualSignBus; C14 relations checked for every alphabet message")
     os.remove(path)
+    if c.tier == "thorough":
+        # 3 signs, exhaustively (quick-tier alphabet and bounds: 151 221 distinct bus states), every state reached on a real 3-sign bus as well
+        with open(path, "w") as sink:
+            c.mc("MC_Bus", "MC_Bus_ex3.cfg", workers=10, timeout=3000, gen_tag="GEN", gen_sink=sink, coverage=False)
+        c.replay_vectors("C14", path, "every state of the exhaustive 3-sign model reached on a real VirtualSignBus; C14 relations checked for every alphabet message")
+        os.remove(path)
     # 3 and 4 signs: random simulation of the model (invariants Isolation/Inv on every visited state)
     sims = [("sim3", "num=300" if c.tier == "quick" else "num=5000", 60)]
     if c.tier == "thorough":
@@ -184,7 +193,7 @@ def c14(c):
                       "the monitor is reference-free: it compares the bus's reply and per-sign projections with what a solo clone of each sign did"]
     return c.finish("model_checking",
                     "M: AddressedIsolation and UnaddressedOnlyReceiving for every alphabet message in every reachable state of the exhaustive 2-sign model "
-                    "(both signs can be mid-transfer at once) and in simulated 3- and 4-sign behaviours; G: the model's witness paths drive a real "
+                    "(both signs can be mid-transfer at once; thorough: also of the exhaustive 3-sign model) and in simulated 3- and 4-sign behaviours; G: the model's witness paths drive a real "
                     "VirtualSignBus into every model state, where every alphabet message is applied to the bus and to solo clones of its signs and the "
                     "C14 relations are checked on the observations; V: random interleavings on 1..4 real signs validated by the reference-free C14 "
                     "monitor in TLC (Trace_Monitor!Isolation); conformance of the values with the state machine is C13's business; distinct = bus transitions")
@@ -458,6 +467,18 @@ def c09(c):
 
 
 # --------------------------------------------------------------------------- beyond the listed properties
+def sign_abs_inductive(c):
+    """SignAbs (the size abstraction that VirtualSign refines: MC_VSign!AbsRefines) has an inductive invariant: Apalache, unbounded."""
+    a, s1 = vlib.run_apalache(c.prop, "SignAbs", "Init", "IndInv", 0)
+    b, s2 = vlib.run_apalache(c.prop, "SignAbs", "IndInit", "IndInv", 1)
+    w, s3 = vlib.run_apalache(c.prop, "SignAbs", "WeakInv", "WeakInv", 1)
+    log("[A] Apalache SignAbs: Init => IndInv %s (%.0fs); IndInv /\\ Next => IndInv' %s (%.0fs); control (weakened invariant is not inductive): %s (%.0fs)"
+        % (a, s1, b, s2, w, s3))
+    if a != "ok" or b != "ok" or w != "violated":
+        raise vlib.ToolError("Apalache: the inductive invariant of SignAbs does not check as documented")
+    c.details["apalache"] = {"module": "SignAbs", "inductive_invariant": "IndInv", "base": a, "step": b, "control_weakened_invariant": w}
+
+
 def extra(c):
     """Specification growth beyond the 20 properties: Display formats (trace validation), termination of controller calls
     under weak fairness (liveness, TLC), and the TLAPS proof about the page layout."""
@@ -490,6 +511,7 @@ def extra(c):
     if not ok or not ok2 or not ok3:
         raise vlib.ToolError("TLAPS proof does not check")
     c.details["tlaps"] = {"obligations": n + n2 + n3, "discharged": n + n2 + n3}
+    sign_abs_inductive(c)
     return c.finish("model_checking", "extras: two controllers sharing a bus; Display formats of frames/messages/pages validated against Display.tla; liveness of controller calls; TLAPS layout proof")
 
 
